@@ -197,9 +197,6 @@ func runFile(it *FileItem, ks *sut.KeySet, workRoot string) (res FileResult) {
 			switch st.Op {
 			case "Read", "ReadAt":
 				want := expand(st.Bytes, unit)
-				if gotN < 0 {
-					gotN = 0
-				}
 				if gotN != len(want) || !sameBytes(gotBytes, want) {
 					fail("returned %d bytes (%s), byte-array file returns %d (%s), err=%v", gotN, describe(gotBytes), len(want), describe(want), cerr)
 				}
@@ -237,7 +234,14 @@ func runFile(it *FileItem, ks *sut.KeySet, workRoot string) (res FileResult) {
 		default: // an error class
 			if cerr == nil {
 				fail("succeeded, byte-array file refuses with %s", st.Res)
+			} else if gotN != 0 || gotPos != 0 {
+				// a refused call transfers nothing: count / offset 0, as os.File reports it (a negative
+				// count makes bytes.Buffer.ReadFrom, hence afero.ReadAll, panic)
+				fail("refused with %v but reports count %d / offset %d, byte-array file reports 0", cerr, gotN, gotPos)
 			}
+		}
+		if gotN < 0 || gotPos < 0 {
+			fail("reports a negative count / offset (%d / %d, err=%v)", gotN, gotPos, cerr)
 		}
 		if bad {
 			_ = f.Close()
